@@ -83,8 +83,8 @@ static void raw_request(const MethodRow& anyrow, const std::vector<MethodRow*>& 
   // reference: selector, then the argument tuple of the method it selects (if bound)
   Val sel; DecResult ds = RefDecode(selector_schema(anyrow.bits), req.data(), req.size(), &sel, nullptr);
   const MethodRow* target = nullptr; if (ds.cat == Cat::OK) for (auto* r : iface_rows) if (r->selector == sel.u && r->bound) target = r;
-  bool expect_ok = false, dup_keys = false; Val av;
-  if (target) { DecResult da = RefDecode(tuple_schema(target->arg_schemas), req.data() + ds.consumed, req.size() - ds.consumed, &av, nullptr); expect_ok = da.cat == Cat::OK; dup_keys = da.dup_keys; }
+  bool expect_ok = false, dup_keys = false, whole = false; Val av;
+  if (target) { DecResult da = RefDecode(tuple_schema(target->arg_schemas), req.data() + ds.consumed, req.size() - ds.consumed, &av, nullptr); expect_ok = da.cat == Cat::OK; dup_keys = da.dup_keys; whole = expect_ok && ds.consumed + da.consumed == req.size(); }
   std::string who = std::string(anyrow.iname);
   if (expect_ok) {
     rep().count("c14_raw_requests_valid");
@@ -113,6 +113,22 @@ static void raw_request(const MethodRow& anyrow, const std::vector<MethodRow*>& 
       if (st && st2 && (replied != wire.rep.size() || memcmp(rp.p, wire.rep.data(), replied) != 0)) rep().violation("C14:buffer-transport:reply", fmt("%s (%s): the reply written to a BufferWriter differs from the reference transport's", who.c_str(), what.c_str()), cd);
       if (!st2 && replied != 0) rep().violation("C14:buffer-transport:reply-for-invalid-request", fmt("%s (%s): %zu reply bytes written for a failed dispatch", who.c_str(), what.c_str(), replied), cd);
     }
+  }
+  // successive calls on one connection: the same well-formed request queued twice (and followed by half of a third) in ONE BufferReader; the dispatcher is
+  // called three times - two successes that each consume exactly their own request and append exactly their own reply, then a decode error
+  if (whole && st && !wire.rep.empty()) {
+    Bytes q = req; q.insert(q.end(), req.begin(), req.end()); const size_t half = req.size() / 2; q.insert(q.end(), req.begin(), req.begin() + half);
+    ExactBuf rq(q.data(), q.size()); const size_t cap = 2 * wire.rep.size(); ExactBuf rp; rp.alloc(cap);
+    try {
+      BufServer bs(rq.p, q.size(), rp.p, cap); rep().count("c14_queued_requests_in_one_BufferReader", 2);
+      for (int k = 0; k < 2; k++) {
+        size_t l0 = hlog().size(); auto s3 = anyrow.serve_buf(bs);
+        if (!s3 || hlog().size() - l0 != 1) { rep().violation("C14:queued-requests:rejected", fmt("%s (%s): request %d of two queued back to back in one BufferReader gave status '%s', %zu handler runs", who.c_str(), what.c_str(), k + 1, s3 ? "ok" : errname(s3.error()), hlog().size() - l0), cd); break; }
+        if (bs.des.reader().remaining() != q.size() - (size_t)(k + 1) * req.size()) { rep().violation("C14:queued-requests:out-of-frame", fmt("%s (%s): after request %d the reader has %zu bytes left, expected %zu", who.c_str(), what.c_str(), k + 1, bs.des.reader().remaining(), q.size() - (size_t)(k + 1) * req.size()), cd); break; }
+        if (bs.ser.writer().size() != (size_t)(k + 1) * wire.rep.size() || memcmp(rp.p + (size_t)k * wire.rep.size(), wire.rep.data(), wire.rep.size()) != 0) { rep().violation("C14:queued-requests:reply", fmt("%s (%s): reply %d differs from the reply to the same request sent alone", who.c_str(), what.c_str(), k + 1), cd); break; }
+        if (k == 1 && half > 0) { size_t l1 = hlog().size(); auto s4 = anyrow.serve_buf(bs); if (s4 && half < req.size()) { /* a prefix may itself be a complete request only if the rest was optional - never for a tuple */ rep().violation("C14:queued-requests:truncated-accepted", fmt("%s (%s): half a request after two complete ones was dispatched successfully", who.c_str(), what.c_str()), cd); } else if (hlog().size() != l1) rep().violation("C14:queued-requests:handler-ran-for-truncated", fmt("%s (%s): a handler ran for half a request", who.c_str(), what.c_str()), cd); }
+      }
+    } catch (const std::exception& e) { rep().violation("C14:buffer-transport:exception", fmt("%s (%s): dispatching queued requests from a BufferReader threw %s", who.c_str(), what.c_str(), e.what()), cd); }
   }
 }
 
